@@ -65,7 +65,45 @@ Definition norm_jsnap (j : jsnap) : jsnap :=
         (match js_sched j with Some _ => js_ctx j | None => false end).
 Definition norm_snap (sn : snap) : snap := Snap (map norm_jsnap (sn_jobs sn)) (sn_wait sn) (sn_pipes sn) (sn_req sn).
 
-Inductive diff := DNotEnabled | DResult | DSnap.
+(** ** projections: which observables a property is about (DESIGN.md 3.3, comparison rule) *)
+Record groups := Groups {
+  g_flags : bool; g_lasterr : bool; g_timer : bool; g_meta : bool; g_tstatus : bool; g_tdef : bool; g_sched : bool;
+  g_cancels : bool; g_wait : bool; g_pipes : bool; g_req : bool }.
+
+Definition blank_task (g : groups) (t : tsnap) : tsnap :=
+  TSnap (ts_name t)
+        (if g_tstatus g then ts_status t else Waiting) (g_tstatus g && ts_start t) (g_tstatus g && ts_end t) (g_tstatus g && ts_skipped t)
+        (if g_tstatus g then ts_exit t else 0) (g_tstatus g && ts_errored t) (if g_tstatus g then ts_err t else None)
+        (g_tstatus g && ts_canceled t) (if g_tdef g then ts_def t else TaskDef [] false false 0 0).
+
+Definition blank_job (g : groups) (j : jsnap) : jsnap :=
+  JSnap (js_id j) (js_pipe j) (g_flags g && js_start j) (g_flags g && js_end j) (g_flags g && js_completed j) (g_flags g && js_canceled j)
+        (if g_lasterr g then js_lasterr j else None) (g_timer g && js_timer j)
+        (if g_meta g then js_delay j else 0%nat) (if g_meta g then js_env j else 0%nat) (if g_meta g then js_vars j else VNone)
+        (if g_meta g then js_user j else 0%nat)
+        (if g_tstatus g || g_tdef g then map (blank_task g) (js_tasks j) else [])
+        (if g_sched g then js_sched j else None) (if g_cancels g then js_cancels j else 0%nat) (g_cancels g && js_ctx j).
+
+Definition proj (g : groups) (sn : snap) : snap :=
+  Snap (map (blank_job g) (sn_jobs sn)) (if g_wait g then sn_wait sn else []) (if g_pipes g then sn_pipes sn else []) (g_req g && sn_req sn).
+
+Definition groups_of (prop : nat) : groups :=
+  match prop with
+  | 1 => Groups true false false false false false true false false true false
+  | 2 => Groups true true false false true true true false false false false
+  | 3 => Groups true false true false false false false false true false false
+  | 4 => Groups true true false false true false true true false false false
+  | 5 => Groups true false false false false false false false true true false
+  | 6 => Groups true false false false false false false false true false false
+  | 7 => Groups true false true false false false false false true false false
+  | 8 => Groups true true false false true false true true false false false
+  | 11 => Groups true true false false true false true true true true true
+  | 15 => Groups true false false false true true false false false true false
+  | 16 => Groups true false false true false true false false false false false
+  | _ => Groups true true true true true true true true true true true
+  end%nat.
+
+Inductive diff := DNotEnabled | DResult | DSnap | DOther.   (* DOther: the snapshots differ, but not in the property's projection *)
 
 Record history := History {
   h_id : nat;
@@ -73,7 +111,7 @@ Record history := History {
   h_steps : list (event * result * snap) }.
 
 (** walk the history; report the index of the first step where model and implementation differ *)
-Fixpoint replay_from (s : state) (i : nat) (steps : list (event * result * snap)) : option (nat * diff) :=
+Fixpoint replay_from (g : groups) (s : state) (i : nat) (steps : list (event * result * snap)) : option (nat * diff) :=
   match steps with
   | [] => None
   | (e, r, sn) :: steps =>
@@ -81,15 +119,20 @@ Fixpoint replay_from (s : state) (i : nat) (steps : list (event * result * snap)
       | None => Some (i, DNotEnabled)
       | Some (s', r') =>
           if negb (bool_decide (r = r')) then Some (i, DResult)
-          else if negb (bool_decide (obs_state s' (map fst (sn_wait sn)) = norm_snap sn)) then Some (i, DSnap)
-          else replay_from s' (S i) steps
+          else
+            let mo := obs_state s' (map fst (sn_wait sn)) in
+            let io := norm_snap sn in
+            if bool_decide (mo = io) then replay_from g s' (S i) steps
+            else if bool_decide (proj g mo = proj g io) then Some (i, DOther) else Some (i, DSnap)
       end
   end.
 
-Definition replay (h : history) : option (nat * diff) := replay_from (init (h_defs h)) 0 (h_steps h).
+Definition replay (prop : nat) (h : history) : option (nat * diff) :=
+  replay_from (groups_of prop) (init (h_defs h)) 0 (h_steps h).
 
-Definition mismatches (hs : list history) : list (nat * nat * diff) :=
-  omap (fun h => match replay h with Some (i, d) => Some (h_id h, i, d) | None => None end) hs.
+Definition mismatches_for (prop : nat) (hs : list history) : list (nat * nat * diff) :=
+  omap (fun h => match replay prop h with Some (i, d) => Some (h_id h, i, d) | None => None end) hs.
+Definition mismatches := mismatches_for 0.
 
 (** the model's snapshot at the diverging step, for diagnosis *)
 Fixpoint state_at (s : state) (i : nat) (steps : list (event * result * snap)) : option (state * option (state * result)) :=
